@@ -849,7 +849,7 @@ hour-based ratios, one without a minute), plus a malformed stream of random and 
     let mut run = Run { ctx, convs: &convs };
     corpus(&mut run);
     let mut rng = Rng::new(seed ^ 0xC13);
-    let k = if thorough { 40 } else { 1 };
+    let k = if thorough { 60 } else { 4 };
     key_cases(&mut run);
     time_cases(&mut run, &mut rng.fork(1), 6000 * k);
     servings_cases(&mut run, &mut rng.fork(2), 1500 * k);
